@@ -197,7 +197,7 @@ Proof.
   apply run_rewrites in Er; [|apply ret_ok_st0].
   rewrite item_toks_restyle in Er.
   apply to_items_significant in Et. rewrite <- Et.
-  assert (H : rewrites c (item_toks its) (significant (of_items out tr)))
+  assert (H : rewrites c (item_toks its) (significant (of_items out (tr ++ rest))))
     by now rewrite significant_of_items.
   destruct (chunks 0 [] out) as [gs0 rest0]. destruct rest0; [|exact H].
   rewrite Hs. exact H.
